@@ -232,7 +232,8 @@ def run(ctx):
             cases.append(dict(g=gi + 1, vec=v, prog=p, strcond=sc, raised=r["raised"], out=r["out"]))
             ctx.case(key=(v, sc) + _nontrivial_key(p), nontrivial=len(p[0]["items"]) + len(p) > 1)
     ctx.programs = len(scalar) + len({repr(p) for p in vec + vec3m + vec3i})
-    chunks = [cases[i:i + CHUNK] for i in range(0, len(cases), CHUNK)]
+    size = 7000 if q else CHUNK
+    chunks = [cases[i:i + size] for i in range(0, len(cases), size)]
     with ThreadPoolExecutor(3) as pool:
         futs = [pool.submit(judge_chunk, ctx, f"j{i}", gconst, ch) for i, ch in enumerate(chunks)]
         for ch, f in zip(chunks, futs):
